@@ -136,7 +136,8 @@ struct Run{
 
   void op_evolve(const Json& o){
     double dt=o["dt"].as_num(0.5); if(!(dt>=0)) dt=0; if(dt>20) dt=20;
-    begin("evolve",c.moved_in_run?"C10":"C15");
+    // a sanitizer report inside Evolve belongs to the property being checked when that is C04/C10 (the defect shows up as a memory error first)
+    begin("evolve",(prop=="C04"||prop=="C10")?prop.c_str():(c.moved_in_run?"C10":"C15"));
     apply_stepper(live);
     bool numerics=c.sw.any();
     std::vector<double> before;
@@ -311,7 +312,7 @@ struct Run{
     std::vector<double> oc(nsun*nsun); for(size_t k=0;k<oc.size();k++) oc[k]=r.uniform(-1,1);
     Mat O=from_components(nsun,&oc[0]);
     double tau=live->Get_t()-live->Get_t_initial();
-    begin("expect:"+kind,"C15");
+    begin("expect:"+kind,prop=="C05"?"C05":"C15");
     shp("expect:"+kind);
     squids::SU_vector op; lib_call([&]{ op=squids::SU_vector(oc); });
     double got=0; int rc=CALL_OK; c.log.clear();
@@ -375,7 +376,7 @@ struct Run{
 
   void op_second_solver(const Json& o){
     // another solver of another dimension on the same simulated thread (the interpolation scratch is thread local and sized by its first user)
-    begin("second_solver","C15");
+    begin("second_solver",prop=="C05"?"C05":"C15");
     unsigned d2=2+(unsigned)(o["d"].as_int(0)%5); if(d2==nsun) d2=2+(d2-2+1)%5;
     struct Mini: public squids::SQuIDS{
       double w[6];
